@@ -29,8 +29,8 @@ CALLBACKS = ('landweber', 'cg', 'cg_normal', 'kaczmarz', 'mlem', 'osmlem',
 TIERS = {
     'C11': {'quick': {'runs': 9600, 'budget_s': 75, 'chunk': 50},
             'thorough': {'runs': 250000, 'budget_s': 1500, 'chunk': 200}},
-    'C12': {'quick': {'runs': 1400, 'budget_s': 80, 'chunk': 10, 'hang_s': 300},
-            'thorough': {'runs': 30000, 'budget_s': 1800, 'chunk': 40,
+    'C12': {'quick': {'runs': 9000, 'budget_s': 80, 'chunk': 30, 'hang_s': 300},
+            'thorough': {'runs': 300000, 'budget_s': 1800, 'chunk': 100,
                          'hang_s': 600}},
 }
 
